@@ -316,6 +316,82 @@ fn c19b_parent_status_two_outcomes() {
     std::mem::forget(st);
 }
 
+//------------ C19(c): the list of published objects follows the deltas ---------
+
+fn b64(s: &'static str) -> Base64 {
+    // Base64 is a newtype around Arc<str> without a cheap public constructor
+    unsafe { std::mem::transmute::<Arc<str>, Base64>(Arc::from(s)) }
+}
+
+fn rsync(s: &'static str) -> uri::Rsync {
+    match uri::Rsync::from_str(s) {
+        Ok(u) => u,
+        Err(_) => { kani::assume(false); unreachable!() }
+    }
+}
+
+fn count_uri(list: &[PublishedFile], u: &uri::Rsync) -> usize {
+    let mut n = 0;
+    let mut i = 0;
+    while i < list.len() {
+        if list[i].uri == *u { n += 1; }
+        i += 1;
+    }
+    n
+}
+
+/// After a successful exchange the published list equals the old list with
+/// the delta applied: an update REPLACES the entry for its URI (exactly one
+/// entry, new content), a withdraw removes it, a publish adds one; other
+/// entries are untouched; the exchange is recorded as a success.
+// vk: tier=thorough; timeout=2400; unwindset=memcmp.0:24; bound=2 existing files (concrete URIs rsync://h/m/a and /b), one delta element chosen symbolically among update(a) / withdraw(a) / publish(c)
+#[kani::proof]
+#[kani::unwind(22)]
+#[kani::stub(rpki::repository::x509::Time::now, stub_now)]
+fn c19c_repo_published_follows_delta() {
+    let now = sym_now().timestamp();
+    let (ua, ub, uc) = (rsync("rsync://h/m/a"), rsync("rsync://h/m/b"), rsync("rsync://h/m/c"));
+    let mut st = RepoStatus::default();
+    st.published.push(PublishedFile { uri: ua.clone(), base64: b64("QQ==") });
+    st.published.push(PublishedFile { uri: ub.clone(), base64: b64("Qg==") });
+    let op: u8 = kani::any();
+    kani::assume(op < 3);
+    let mut delta = PublishDelta::empty();
+    let h = Hash::from([0u8; 32]);
+    match op {
+        0 => delta.add_update(rpki::ca::publication::Update::new(None, ua.clone(), b64("Qw=="), h)),
+        1 => delta.add_withdraw(rpki::ca::publication::Withdraw::new(None, ua.clone(), h)),
+        _ => delta.add_publish(rpki::ca::publication::Publish::new(None, uc.clone(), b64("Qw=="))),
+    }
+    st.update_published(http(), delta);
+    assert!(count_uri(&st.published, &ub) == 1);
+    match op {
+        0 => {
+            assert!(st.published.len() == 2);
+            assert!(count_uri(&st.published, &ua) == 1);
+            let mut i = 0;
+            while i < st.published.len() {
+                if st.published[i].uri == ua { assert!(st.published[i].base64.as_str().as_bytes()[1] == b'w'); }
+                i += 1;
+            }
+        }
+        1 => {
+            assert!(st.published.len() == 1);
+            assert!(count_uri(&st.published, &ua) == 0);
+        }
+        _ => {
+            assert!(st.published.len() == 3);
+            assert!(count_uri(&st.published, &ua) == 1 && count_uri(&st.published, &uc) == 1);
+        }
+    }
+    assert!(!exch_failed(&st.last_exchange));
+    assert!(st.last_success == Some(Timestamp::new(now)));
+    kani::cover!(op == 0);
+    kani::cover!(op == 1);
+    kani::cover!(op == 2);
+    std::mem::forget((st, ua, ub, uc));
+}
+
 #[cfg(test)]
 #[path = "/verif/.cache/playback/api_ca.rs"]
 mod playback;
